@@ -26,8 +26,8 @@ PLAN = {
                 thorough=[("rt", "release", 1500000), ("rawrt", "release", 400000)],
                 assumptions=["frame boundaries come from refflac"]),
     "C17": dict(level="exploration", rule=RT_RULE,
-                quick=[("rt", "release", 30000), ("dmg", "release", 150), ("dmgcat", "release", 150), ("synth", "release", 20000), ("bent", "release", 12000)],
-                thorough=[("rt", "release", 1000000), ("dmg", "release", 4000), ("dmgcat", "release", 4000), ("synth", "release", 1500000), ("synth", "checked", 200000), ("bent", "release", 1000000), ("bent", "checked", 200000)],
+                quick=[("rt", "release", 30000), ("dmg", "release", 150), ("dmgcat", "release", 150), ("synth", "release", 20000), ("bent", "release", 12000), ("dmggen", "release", 80)],
+                thorough=[("rt", "release", 1000000), ("dmg", "release", 4000), ("dmgcat", "release", 4000), ("synth", "release", 1500000), ("synth", "checked", 200000), ("bent", "release", 1000000), ("bent", "checked", 200000), ("dmggen", "release", 2000)],
                 assumptions=[]),
     "C13": dict(level="fault_enumeration",
                 rule=("each run draws one transaction (encode+finalize through a writer front-end on a raw / caller-buffered / "
@@ -110,8 +110,8 @@ PLAN = {
                       "entry points in rotation; one (damaged file, entry point) = one evaluation; monitors: panic/abort, hang "
                       "(EOF-poll and event budgets), peak allocation <= 64 MiB + 16 x input; both profiles"),
                 exhaustive_subspaces=["per corpus file <= 700 bytes: all single-bit flips, all truncation lengths, all 16-byte sectors"],
-                quick=[("dmg", "release", 130), ("dmg", "checked", 130), ("dmgcat", "release", 40), ("dmgcat", "checked", 40), ("synth", "release", 6000), ("synth", "checked", 6000), ("bent", "release", 5000), ("bent", "checked", 5000)],
-                thorough=[("dmg", "release", 2500), ("dmg", "checked", 2500), ("dmgcat", "release", 2000), ("dmgcat", "checked", 2000), ("synth", "release", 500000), ("synth", "checked", 500000), ("bent", "release", 300000), ("bent", "checked", 300000)],
+                quick=[("dmg", "release", 130), ("dmg", "checked", 130), ("dmgcat", "release", 40), ("dmgcat", "checked", 40), ("synth", "release", 6000), ("synth", "checked", 6000), ("bent", "release", 5000), ("bent", "checked", 5000), ("dmggen", "release", 60), ("dmggen", "checked", 60)],
+                thorough=[("dmg", "release", 2500), ("dmg", "checked", 2500), ("dmgcat", "release", 2000), ("dmgcat", "checked", 2000), ("synth", "release", 500000), ("synth", "checked", 500000), ("bent", "release", 300000), ("bent", "checked", 300000), ("dmggen", "release", 1500), ("dmggen", "checked", 1500)],
                 assumptions=["restricted claim: only byte strings that storage/transport faults derive from valid files, not all byte strings"]),
     "C05": dict(level="fault_enumeration",
                 rule=("same corpus; coordinates: every single-bit flip inside the audio frames and the stored MD5, every truncation "
@@ -119,8 +119,8 @@ PLAN = {
                       "reader front-ends in rotation and through verify_reader; refflac judges the altered bytes; dmgcat = must-reject "
                       "catalogue through all 10 readers and verify_reader; one (damaged file, reader) = one evaluation"),
                 exhaustive_subspaces=["per corpus file <= 700 bytes: all single-bit flips in the frame region and the digest, all truncation lengths"],
-                quick=[("dmg", "release", 220), ("dmgcat", "release", 150), ("bent", "release", 12000)],
-                thorough=[("dmg", "release", 6000), ("dmg", "checked", 1000), ("dmgcat", "release", 5000), ("bent", "release", 1000000), ("bent", "checked", 100000)],
+                quick=[("dmg", "release", 220), ("dmgcat", "release", 150), ("bent", "release", 12000), ("dmggen", "release", 100)],
+                thorough=[("dmg", "release", 6000), ("dmg", "checked", 1000), ("dmgcat", "release", 5000), ("bent", "release", 1000000), ("bent", "checked", 100000), ("dmggen", "release", 3000), ("dmggen", "checked", 500)],
                 assumptions=["refflac decides whether altered bytes happen to be another valid stream",
                              "checksum-consistent random edits are not judged for silent acceptance (C03's question)"]),
     "C10": dict(level="exploration",
@@ -191,6 +191,7 @@ EXPECT = {
   "zero_width_partition"
  ],
  "C04": [
+  "dmg_generator_made_file",
   "bent_frame_built",
   "bent_frame_invalid_per_refflac",
   "bent_frame_still_valid_per_refflac",
@@ -226,6 +227,7 @@ EXPECT = {
   "trunc_on_frame_boundary"
  ],
  "C05": [
+  "dmg_generator_made_file",
   "bent_frame_built",
   "bent_frame_invalid_per_refflac",
   "bent_frame_still_valid_per_refflac",
@@ -389,6 +391,7 @@ EXPECT = {
   "c16_sync_split_across_refill"
  ],
  "C17": [
+  "dmg_generator_made_file",
   "bent_frame_built",
   "bent_frame_invalid_per_refflac",
   "bent_frame_still_valid_per_refflac",
